@@ -33,6 +33,7 @@ PROPS = {
         "level": "exploration",
         "units": [
             U("pure", "TestC13", q(300000), q(4000000, 8)),
+            U("pure", "TestC13Conc", q(1500), q(20000, 2)),
             U("pure", "FuzzC13", None, {"fuzztime": 90}, kind="fuzz", fuzz="FuzzC13", fuzz_fields=["interval_ns", "quantity", "minimum_ns"]),
         ],
         "assumptions": [RAPID, "oracle arithmetic is math/big (exact)", "native fuzzing (thorough tier only) is coverage guided and not reproducible from the seed; its saved failing input is replayed through the same oracle"],
